@@ -10,9 +10,11 @@ import subprocess
 OBJDUMP = "objdump"
 
 
-def make_elf(sections, symbols=(), bits=64):
+def make_elf(sections, symbols=(), bits=64, addrs=None, etype=1):
     """sections: list of (name, bytes, executable: bool); symbols: (name, section index 1-based, value, 'func'|'object').
-    Returns the bytes of an ET_REL object for x86-64 (bits=64) or i386 (bits=32)."""
+    Returns the bytes of an ET_REL object for x86-64 (bits=64) or i386 (bits=32).  With `addrs` (one virtual address per section)
+    and etype 2 / 3 the result is what a linked executable / shared object looks like to `objdump -d`: sections at their load
+    addresses, symbol values absolute (no program headers: objdump does not need them to disassemble)."""
     shstr = b"\0"
 
     def add(n):
@@ -43,6 +45,8 @@ def make_elf(sections, symbols=(), bits=64):
         typ = 1 if (len(sym) > 3 and sym[3] == "object") else 2
         so = len(strtab)
         strtab += sn.encode() + b"\0"
+        if addrs is not None and etype != 1 and 1 <= si <= len(addrs):
+            val = (addrs[si - 1] + val) & ((1 << bits) - 1)
         if is64:
             syms += struct.pack("<IBBHQQ", so, (1 << 4) | typ, 0, si, val, 0)
         else:
@@ -61,21 +65,21 @@ def make_elf(sections, symbols=(), bits=64):
     if is64:
         fmt = "<IIQQQQIIQQ"
         sh = struct.pack(fmt, 0, 0, 0, 0, 0, 0, 0, 0, 0, 0)
-        for (nm, typ, flags, o, sz, al) in secs:
-            sh += struct.pack(fmt, nm, typ, flags, 0, o, sz, 0, 0, al, 0)
+        for q, (nm, typ, flags, o, sz, al) in enumerate(secs):
+            sh += struct.pack(fmt, nm, typ, flags, addrs[q] if addrs is not None and q < len(addrs) else 0, o, sz, 0, 0, al, 0)
         sh += struct.pack(fmt, n_sym, 2, 0, 0, symoff, len(syms), nsec + 2, 1, 8, 24)
         sh += struct.pack(fmt, n_str, 3, 0, 0, stroff, len(strtab), 0, 0, 1, 0)
         sh += struct.pack(fmt, n_shstr, 3, 0, 0, shstroff, len(shstr), 0, 0, 1, 0)
-        eh = b"\x7fELF" + bytes([2, 1, 1, 0]) + b"\0" * 8 + struct.pack("<HHIQQQIHHHHHH", 1, 62, 1, 0, 0, shoff, 0, 64, 0, 0, 64, nsec + 4, nsec + 3)
+        eh = b"\x7fELF" + bytes([2, 1, 1, 0]) + b"\0" * 8 + struct.pack("<HHIQQQIHHHHHH", etype, 62, 1, 0, 0, shoff, 0, 64, 0, 0, 64, nsec + 4, nsec + 3)
     else:
         fmt = "<IIIIIIIIII"
         sh = struct.pack(fmt, 0, 0, 0, 0, 0, 0, 0, 0, 0, 0)
-        for (nm, typ, flags, o, sz, al) in secs:
-            sh += struct.pack(fmt, nm, typ, flags, 0, o, sz, 0, 0, min(al, 4) if typ == 7 else al, 0)
+        for q, (nm, typ, flags, o, sz, al) in enumerate(secs):
+            sh += struct.pack(fmt, nm, typ, flags, addrs[q] if addrs is not None and q < len(addrs) else 0, o, sz, 0, 0, min(al, 4) if typ == 7 else al, 0)
         sh += struct.pack(fmt, n_sym, 2, 0, 0, symoff, len(syms), nsec + 2, 1, 4, 16)
         sh += struct.pack(fmt, n_str, 3, 0, 0, stroff, len(strtab), 0, 0, 1, 0)
         sh += struct.pack(fmt, n_shstr, 3, 0, 0, shstroff, len(shstr), 0, 0, 1, 0)
-        eh = b"\x7fELF" + bytes([1, 1, 1, 0]) + b"\0" * 8 + struct.pack("<HHIIIIIHHHHHH", 1, 3, 1, 0, 0, shoff, 0, 52, 0, 0, 40, nsec + 4, nsec + 3)
+        eh = b"\x7fELF" + bytes([1, 1, 1, 0]) + b"\0" * 8 + struct.pack("<HHIIIIIHHHHHH", etype, 3, 1, 0, 0, shoff, 0, 52, 0, 0, 40, nsec + 4, nsec + 3)
     return eh + body + sh
 
 
